@@ -11,7 +11,7 @@ macro's declared inputs, defaults, hints and output labels are those of its defi
 Quantification: every macro definition `n : Node` (a nested inductive: parameters with defaults and
 hints, children = term nodes and NESTED macro instances, returned objects; parameters used zero, one
 or many times, passed through, fed to nested macros), every state reached by construction, assignments
-to the macro's inputs and runs (`Reach`), every input assignment. Theorems are by structural
+to the macro's inputs, runs and assignments to leaf-child outputs (`Reach`), every input assignment. Theorems are by structural
 induction over the nested definition, i.e. for every nesting depth.
 
 Hypotheses, all named: `WF n` (the definition refers only to existing parameters / earlier children
@@ -82,12 +82,19 @@ theorem C09_by_value_rerun (n : Node) (σ σ1 : St) (k : Nat) (v : Val) (hwf : W
 
 /-! ## (b) by-value synchronisation -/
 
-/-- after construction, after every assignment to a macro input and after every run, at every
-nesting depth: each macro input holds the value of the channel it is linked to (`Inv`), each macro
+/-- after construction, after every assignment to a macro input, after every run and after every
+direct assignment to the output of a leaf child (`Reach`), at every nesting depth: each macro input holds the value of the channel it is linked to (`Inv`), each macro
 output holds the value of the returned channel it is linked to (`OutSync`) -/
 theorem C09_links_sync_partial (n : Node) (σ : St) (hwf : WF n) (hnd : NoDupH n) (h : Reach n σ) :
     Inv true n σ ∧ OutSync n σ :=
   reach_inv n hwf hnd σ h
+
+/-- a child-level update on the sending side — the output of a leaf child anywhere below the macro
+assigned directly — is pushed up through every macro that returns it and keeps every link -/
+theorem C09_child_output_sync (n : Node) (σ : St) (p : Path) (o : Nat) (v : Val) (hwf : WF n) (hnd : NoDupH n)
+    (h : Reach n σ) (hleaf : ∃ f s, nodeAt n p = some (.leaf f s)) :
+    Inv true n (setOutAt n σ p o v).1 ∧ OutSync n (setOutAt n σ p o v).1 :=
+  C09_links_sync_partial n _ hwf hnd (Reach.setOutLeaf p o v h hleaf)
 
 /-- `Inv` read at one macro: the input of a parameter used many times or passed through equals the
 input of its UI node; the input of a single-use parameter equals the input of its only consumer
@@ -267,6 +274,12 @@ example : ∃ σ1, run exTop (setIn exTop (build exTop) 0 (.c 1)) = some σ1 ∧
       rw [hr] at this; cases this
   exact ⟨σ1, h, Reach.setIn 0 (.c 2) (Reach.run (Reach.setIn 0 (.c 1) Reach.build) h)⟩
 
+/-- a child-level update three levels down: the innermost `c1.outputs.o = c9` reaches the output of the
+innermost macro, which the middle macro does not return — it stops there -/
+example : ((setOutAt exTop (build exTop) [1, 0, 1] 0 (.c 9)).1.atPath [1, 0]).get .out 0 = .c 9 ∧
+    (setOutAt exTop (build exTop) [1, 0, 1] 0 (.c 9)).2 = none ∧
+    (match nodeAt exTop [1, 0, 1] with | some (.leaf 1 _) => true | _ => false) = true := by decide
+
 /-- the links of the three-level example right after construction: the top parameter is single-use
 (linked to `c0.a`), the middle macro keeps both UI nodes (fan-out, pass-through), the innermost keeps
 its UI node (two uses) -/
@@ -281,6 +294,7 @@ end PwVerif.C09
 #print axioms PwVerif.C09.C09_macro_eq_inlined
 #print axioms PwVerif.C09.C09_by_value_rerun
 #print axioms PwVerif.C09.C09_links_sync_partial
+#print axioms PwVerif.C09.C09_child_output_sync
 #print axioms PwVerif.C09.C09_links_read
 #print axioms PwVerif.C09.C09_setter_keeps_links
 #print axioms PwVerif.C09.C09_links_sync_receiving_witness
